@@ -91,7 +91,7 @@ Proof.
     destruct (drainF (rx_buf s ++ seg)) as [[[b1 blk1] out1] ab1].
     destruct ab1.
     + rewrite A in Hall. discriminate Hall.
-    + rewrite andb_false_r. specialize (St eq_refl).
+    + specialize (St eq_refl).
       destruct (drainF (b1 ++ List.concat r)) as [[[b2 blk2] out2] ab2] eqn:E2. rewrite A in Hall.
       injection Hall as <- <- <- ->.
       rewrite (IH {| rx_buf := b1; rx_blocked := blk1 |} b2 blk2 out2); [reflexivity|exact St|exact E2].
